@@ -392,6 +392,98 @@ theorem github_prints_same_position (rel : Str) (d : Diag) :
   · unfold formatGithub; simp only [List.append_assoc]
   · unfold formatPlain; simp only [List.append_assoc]
 
+/-! ### The GitHub annotation determines its fields too -/
+
+/-- drop a literal prefix -/
+def stripPre : Str → Str → Option Str
+  | [], s => some s
+  | _ :: _, [] => none
+  | p :: ps, x :: xs => if p = x then stripPre ps xs else none
+
+theorem stripPre_append (p r : Str) : stripPre p (p ++ r) = some r := by
+  induction p with
+  | nil => simp [stripPre]
+  | cons a as ih => simp [stripPre, ih]
+
+/-- a reader of `::error line=L,col=C,title=Refurb PFXnnn,file=F::msg` -/
+def parseGithub (s : Str) : Option Fields :=
+  match stripPre "::error line=".toList s with
+  | some r0 =>
+    match spanP Char.isDigit r0 with
+    | (lineS, r0') =>
+      match stripPre ",col=".toList r0' with
+      | some r1 =>
+        match spanP Char.isDigit r1 with
+        | (colS, r2) =>
+          match stripPre ",title=Refurb ".toList r2 with
+          | some r3 =>
+            match spanP (fun c => !c.isDigit && c != ',') r3 with
+            | (pfx, r4) =>
+              match spanP Char.isDigit r4 with
+              | (codeS, r5) =>
+                match stripPre ",file=".toList r5 with
+                | some r6 =>
+                  match spanP (· != ':') r6 with
+                  | (file, ':' :: ':' :: msg) =>
+                    some { file := file, line := readNat lineS, col := readNat colS, pfx := pfx, code := readNat codeS, msg := msg }
+                  | _ => none
+                | none => none
+          | none => none
+      | none => none
+  | none => none
+
+/-- **GitHub round trip**: the annotation parses back to exactly the diagnostic's fields — the message verbatim, the
+    column as printed (1-based), the file as given relative to the working directory. -/
+theorem github_roundtrip (rel : Str) (d : Diag) (hl : 0 ≤ d.line) (hc : 0 ≤ d.col + 1)
+    (hf : ':' ∉ rel) (hp : ∀ c ∈ d.pfx, c.isDigit = false ∧ c ≠ ',') :
+    parseGithub (formatGithub rel d) =
+      some { file := rel, line := d.line.toNat, col := (d.col + 1).toNat, pfx := d.pfx, code := d.code, msg := d.msg } := by
+  unfold formatGithub Diag.codeChars parseGithub
+  rw [intChars_nonneg _ hl, intChars_nonneg _ hc]
+  simp only [List.append_assoc]
+  rw [stripPre_append]
+  simp only
+  have e1 : ",col=".toList ++ (natChars (d.col + 1).toNat ++ (",title=Refurb ".toList ++ (d.pfx ++ (natChars d.code ++ (",file=".toList ++ (rel ++ ([':', ':'] ++ d.msg)))))))
+      = ',' :: ("col=".toList ++ (natChars (d.col + 1).toNat ++ (",title=Refurb ".toList ++ (d.pfx ++ (natChars d.code ++ (",file=".toList ++ (rel ++ ([':', ':'] ++ d.msg)))))))) := rfl
+  rw [e1, span_append Char.isDigit (natChars d.line.toNat) ',' _ (natChars_isDigit _) (by decide)]
+  simp only
+  rw [← e1, stripPre_append]
+  simp only
+  have e2 : ",title=Refurb ".toList ++ (d.pfx ++ (natChars d.code ++ (",file=".toList ++ (rel ++ ([':', ':'] ++ d.msg)))))
+      = ',' :: ("title=Refurb ".toList ++ (d.pfx ++ (natChars d.code ++ (",file=".toList ++ (rel ++ ([':', ':'] ++ d.msg)))))) := rfl
+  rw [e2, span_append Char.isDigit (natChars (d.col + 1).toNat) ',' _ (natChars_isDigit _) (by decide)]
+  simp only
+  rw [← e2, stripPre_append]
+  simp only
+  obtain ⟨c0, cr, hcr⟩ : ∃ c0 cr, natChars d.code = c0 :: cr := by
+    cases h : natChars d.code with
+    | nil => exact absurd h (natChars_ne_nil _)
+    | cons a b => exact ⟨a, b, rfl⟩
+  have hc0 : c0.isDigit = true := natChars_isDigit d.code c0 (by rw [hcr]; simp)
+  rw [hcr]
+  simp only [List.cons_append]
+  rw [span_append (fun c => !c.isDigit && c != ',') d.pfx c0 _
+    (by intro x hx; have := hp x hx; simp [this.1, this.2]) (by simp [hc0])]
+  simp only
+  have e3 : c0 :: (cr ++ (",file=".toList ++ (rel ++ ':' :: ':' :: ([] ++ d.msg)))) = (c0 :: cr) ++ ',' :: ("file=".toList ++ (rel ++ ':' :: ':' :: ([] ++ d.msg))) := rfl
+  rw [e3, ← hcr, span_append Char.isDigit (natChars d.code) ',' _ (natChars_isDigit _) (by decide)]
+  simp only
+  have e4 : ',' :: ("file=".toList ++ (rel ++ ':' :: ':' :: ([] ++ d.msg))) = ",file=".toList ++ (rel ++ ':' :: (':' :: d.msg)) := rfl
+  rw [e4, stripPre_append]
+  simp only
+  rw [span_append (· != ':') rel ':' _
+    (by intro x hx; have : x ≠ ':' := fun h => hf (h ▸ hx); simpa using this) (by simp)]
+  simp only [readNat_natChars]
+
+/-- **The formats agree**: read back, the plain line and the GitHub annotation of a diagnostic carry the same line, column,
+    code and message (and the same file, spelled relative to the working directory in the annotation). -/
+theorem formats_agree (rel : Str) (d : Diag) (hl : 0 ≤ d.line) (hc : 0 ≤ d.col + 1) (hf : ':' ∉ d.file) (hr : ':' ∉ rel)
+    (hp : ∀ c ∈ d.pfx, c.isDigit = false ∧ c ≠ ']' ∧ c ≠ ',') :
+    ∃ p g, parsePlain (formatPlain d) = some p ∧ parseGithub (formatGithub rel d) = some g ∧
+      p.line = g.line ∧ p.col = g.col ∧ p.pfx = g.pfx ∧ p.code = g.code ∧ p.msg = g.msg ∧ p.file = d.file ∧ g.file = rel :=
+  ⟨_, _, plain_roundtrip d hl hc hf (fun c h => ⟨(hp c h).1, (hp c h).2.1⟩),
+    github_roundtrip rel d hl hc hr (fun c h => ⟨(hp c h).1, (hp c h).2.2⟩), rfl, rfl, rfl, rfl, rfl, rfl, rfl⟩
+
 /-! ### Non-vacuity -/
 
 def sample : Diag := { file := "a.py".toList, line := 3, col := 4, pfx := "FURB".toList, code := 123,
@@ -401,6 +493,9 @@ example : parsePlain (formatPlain sample) =
     some { file := "a.py".toList, line := 3, col := 5, pfx := "FURB".toList, code := 123, msg := sample.msg } := by
   decide +kernel
 example : stripAnsi (formatColor sample) = formatPlain sample := by decide +kernel
+example : parseGithub (formatGithub "sub/a.py".toList { sample with msg := "two  blanks, a `tick` and 100%".toList }) =
+    some { file := "sub/a.py".toList, line := 3, col := 5, pfx := "FURB".toList, code := 123, msg := "two  blanks, a `tick` and 100%".toList } := by
+  decide +kernel
 example : colorMsg sample.msg ≠ sample.msg := by decide +kernel
 
 end RefurbVerif.C13
